@@ -80,6 +80,8 @@ class Sched(object):
         self.driver_lock = _thread.allocate_lock()
         self.driver_lock.acquire()
         self.on_yield = None     # hook(task, kind, key) -> None ; may crash procs / raise
+        self.gc_every = None     # run the (otherwise disabled) cyclic garbage collector every N steps: deterministic stand-in
+        #                          for code that relies on it to close descriptors held in reference cycles
         self.time_jumps = 0
         self.stuck_info = None
         self.running = False
@@ -248,6 +250,9 @@ class Sched(object):
             self.on_yield(me, kind, key)
             if me.proc.dead:
                 raise SimCrash()
+        if self.gc_every and self.steps % self.gc_every == 0:
+            import gc
+            gc.collect()
         nxt = self._choose(me)
         if nxt is not me:
             self._handoff(me, nxt)
